@@ -38,7 +38,7 @@ TKeys == 1..Len(Hd.keys)
 TN(sz) == (sz * 1048576) \div Hd.entry_bytes       \* calculate_number_of_entries
 TGenMod == 256
 \* CodeView knob GEN_OVERFLOW (set by tools/p_c19.py): "panic" = `generation += 1` panics in a build with
-\* overflow checks (the code as written), "wrap" = it wraps in every build
+\* overflow checks (the code before /repo fec6e7e), "wrap" = it wraps in every build (wrapping_add)
 TChecked == Hd.checked /\ IOEnv.GEN_OVERFLOW = "panic"
 
 \* (2^64-bit key given by limbs k[1] (lowest) .. k[4]) mod n in 32-bit arithmetic, n <= 2^26
